@@ -243,6 +243,8 @@ def run_kani(pid, part, tier, jobs):
         for k in kinds:
             filt += ["--harness", "%s%s_" % (pre, k)]
     per_harness_to = part.get("harness_timeout_thorough" if tier == "thorough" else "harness_timeout", 300 if tier == "quick" else 3600)
+    if os.environ.get("VERIF_HARNESS_TIMEOUT"):
+        per_harness_to = int(os.environ["VERIF_HARNESS_TIMEOUT"])
     cmd += filt + ["-j", str(jobs), "--output-format", "terse", "--export-json", jpath,
                    "--harness-timeout", "%ds" % per_harness_to]
     cmd += part.get("extra_args", [])
